@@ -12,6 +12,21 @@ CHECKS = {
     ref="DESIGN.md 7 (C10), 5, 13",
     note="Trusted: Coq kernel; hand-written model Hal.v of interface.rs (correspondence is differential testing); Rust harness mocks; Linux chunking branch only.",
     tech=TECH % "induction over item lists with a small program logic for the HAL monad"),
+ 'C03': dict(
+    text="Theorems about the model of graphics.rs set_pixel for ALL widths and heights up to i32::MAX (any padding), all four rotations, all three colour types and every colour, both bwrbit values, every i32 point and every buffer content: in-bounds points change exactly the bits of the one physical pixel the rotation maps them to (to the colour's encoding in every plane) and nothing else, out-of-bounds points change nothing, no panic and no write outside buffer(), size() swaps for 90/270; the rotation is a bijection. Instantiated for the 27 shipped aliases. Tied to the code by exhaustive per-alias sweeps, VarDisplay geometry sweeps and i32 extremes answered by the real crate and the extracted model.",
+    ref="DESIGN.md 7 (C03), 5.4, 13",
+    note="Trusted: Coq kernel; hand-written model Pure/Graphics.v + Pure/Color.v bitmask (pure correspondence is differential testing); widths >= 2^31 are outside the model.",
+    tech=TECH % "bit-level lemmas + linear arithmetic, no enumeration over geometries"),
+ 'C13': dict(
+    text="Theorems for ALL widths/heights: buffer_len and buffer_size are exactly planes x rows x least padded row bytes, tricolour buffers split in two equal halves, VarDisplay::new accepts iff the slice holds every plane, every pixel of an accepted buffer is drawable in-slice and the last pixel touches the last byte (tightness); the 27 alias BYTECOUNT expressions evaluate to that size. Tied to the code by alias-constant queries (size, default all-zero, halves), VarDisplay::new sweeps and buffer_len sweeps on the real crate vs the extracted model.",
+    ref="DESIGN.md 7 (C13), 5.4, 13",
+    note="Trusted: Coq kernel; hand-written models Pure/Graphics.v, Pure/Aliases.v; 'starts all-zero' / 'dimensions the driver reports' are decided by the correspondence queries, not by a theorem; 64-bit usize.",
+    tech=TECH % "linear arithmetic over N; closed computation for the 27 aliases"),
+ 'C14': dict(
+    text="Theorems about the model of color.rs: every bit/byte/nibble/nibble-pair/raw round trip, mask/fill agreement at every position (unbounded pos), exact characterisation of which conversions can fail, for ALL r,g,b: OctColor::from(Rgb888) returns a palette colour at minimal squared distance (exact when present, first on ties) and Color::from(Rgb888/565/555) is White iff nearer to white (ties impossible). Three statements are false of the faithful model and carry _refuted theorems (known findings). Tied to the code by all finite tables, all 2^16/2^15 Rgb565/555 values and Rgb888 sweeps (exhaustive in the thorough tier) plus direct evaluation of the clauses on the real tables.",
+    ref="DESIGN.md 7 (C14), 5.5, 13",
+    note="Trusted: Coq kernel; hand-written model Pure/Color.v (pure correspondence is differential testing); embedded-graphics RawU*/Rgb* types are taken as specified by their docs.",
+    tech=TECH % "finite sweeps lifted by forallb_forall, structural min_by_key lemma, lia"),
  'C16': dict(
     text="Theorems about the model of src/rect.rs for ALL rectangles whose right/bottom edges are representable (no bound): intersect is total, commutative, idempotent, covers exactly the common pixels (hence empty iff disjoint), lies inside both operands; sub_offset moves the origin and keeps the size. Tied to the code by exhaustive 0..12 sweeps plus boundary/random u32 rectangles answered by the real Rect and the extracted model; a differing answer is judged against the pixel-set semantics itself.",
     ref="DESIGN.md 7 (C16), 5.4, 13",
